@@ -2,14 +2,16 @@
 SPECIFICATION Spec
 CONSTANTS
   Senders = {1}
-  MaxSend = 2
+  MaxSend = 1
   MaxTele = 1
   M = 4
   R = 2
   T = 4
   H = 100
-  MaxNow = 5
+  MaxNow = 4
   MaxNet = 2
+  MaxRxq = 2
+  MaxGwResend = 1
   DupBudget = 1
   LossBudget = 1
   InjBudget = 0
